@@ -96,6 +96,13 @@ def prop_chart(kind, user_names):
     sc.add_state(CompoundState('p', initial='s'), None)
     sc.add_state(BasicState('s'), 'p')
     names = DOCUMENTED + sorted(user_names)
+    if kind == 'watchdog':
+        # sends itself a delayed event when it starts and fails when that event arrives; it has no transition
+        # on any meta-event: only the execution triggered by a meta-event can make it notice the deadline
+        sc.state_for('s').on_entry = "send('timeout', delay=2)"
+        sc.add_state(FinalState('f'), 'p')
+        sc.add_transition(Transition('s', 'f', event='timeout'))
+        return sc
     if kind == 'record':
         for n in names + ['delayed event sent']:
             sc.add_transition(Transition('s', None, event=n, action='R(event, time)'))
@@ -172,6 +179,10 @@ def run_case(R0, hist, op, mode, target=None, user_names=()):
     if mode == 'final':
         KSTATE['target'] = target
         it.bind_property_statechart(prop_chart('final', user_names), interpreter_klass=mk_prop)
+    if mode == 'watchdog':
+        it.attach(recorder)
+        it.bind_property_statechart(prop_chart('watchdog', user_names), interpreter_klass=mk_prop)
+        it.execute_once()       # nothing pending: the property statechart starts (and arms its timeout) now
     it.clock.time += 3
     call_time = it.clock.time
     probes.reset()
@@ -245,6 +256,16 @@ def work(task):
                      min(len(rstream), len(want_r)))
             viol(ex, 'property-stream', 'property statechart saw %s, expected %s (attributes + clock == step time %s)'
                  % (rstream[i:i + 1], want_r[i:i + 1], step_time))
+        # a property statechart driven by its own delayed event (watchdog): armed one step earlier, its deadline
+        # has passed when this call starts, so the call must fail at its very first meta-event
+        w = run_case(R0, hist, ex.op, 'watchdog', user_names=user_names)
+        extra['watchdog_runs'] += 1
+        wlog = [e for e in w['log'] if e[0] != 'r']
+        if w['outcome'] != 'PropertyStatechartError':
+            viol(ex, 'watchdog', 'a property statechart whose own delayed event was due did not fail the call: %s'
+                 % w['outcome'])
+        elif wlog != unified[:1]:
+            viol(ex, 'watchdog', 'the watchdog property failed, but only after %s' % (wlog[1:4],))
         documented = [k for k, e in enumerate(unified) if e[0] == 'm' and (e[1] in DOCUMENTED or e[1] in user_names)]
         extra['meta_events'] += len(documented)
         for i, pos in enumerate(documented, 1):
